@@ -37,7 +37,8 @@ def run_one(item):
                          (r.stdout + r.stderr)[-400:] if not (r.returncode in (0, 1) and (viol or r.returncode == 0)) else ""))
         caught = [o for o in outs if o[1] == 1]
         if not caught and item.get("expect") == "masked":
-            # documented: a second layer of the code under test still enforces the property with this edit applied
+            # documented: the property still holds with this edit applied (a second layer enforces it, or the edit only
+            # changes behaviour the statement / the interface leaves open)
             return dict(item, outcome="masked-as-documented", results=outs, wall=round(time.time() - t0, 1))
         return dict(item, outcome="caught" if caught else "MISSED", results=outs, wall=round(time.time() - t0, 1))
     finally:
